@@ -1,0 +1,58 @@
+//go:build verif
+
+package font
+
+import (
+	"errors"
+
+	"github.com/go-text/typesetting/font/opentype/tables"
+)
+
+// Verification hooks for property C09, second batch (add-only, compiled only with the build tag `verif`).
+
+// VerifHmtxQuery runs loadHVtmx on the raw hhea (or vhea) and hmtx (or vmtx) tables, then
+// Hmtx.Advance and getSideBearing for every glyph id of [gids].
+func VerifHmtxQuery(hheaRaw, hmtxRaw []byte, numGlyphs int, gids []uint32) (nMetrics, nBearings int, advances, bearings []int16, err error) {
+	_, hmtx, err := loadHVtmx(hheaRaw, hmtxRaw, numGlyphs)
+	if err != nil {
+		return 0, 0, nil, nil, err
+	}
+	for _, g := range gids {
+		advances = append(advances, hmtx.Advance(tables.GlyphID(g)))
+		bearings = append(bearings, getSideBearing(gID(g), hmtx))
+	}
+	return len(hmtx.Metrics), len(hmtx.LeftSideBearings), advances, bearings, nil
+}
+
+// VerifCmapSubtableLookup parses one cmap subtable of format 6, 10, 12 or 13, builds the Cmap as
+// ProcessCmap does and looks every rune up. size is the number of entries (6, 10) or of groups
+// kept by the constructor (12, 13).
+func VerifCmapSubtableLookup(sub []byte, runes []rune) (size int, gids []GID, oks []bool, err error) {
+	st, _, err := tables.ParseCmapSubtable(sub)
+	if err != nil {
+		return 0, nil, nil, err
+	}
+	var cm Cmap
+	switch st := st.(type) {
+	case tables.CmapSubtable6:
+		c := newCmap6(st)
+		cm, size = c, len(c.entries)
+	case tables.CmapSubtable10:
+		c := newCmap10(st)
+		cm, size = c, len(c.entries)
+	case tables.CmapSubtable12:
+		c := newCmap12(st)
+		cm, size = c, len(c)
+	case tables.CmapSubtable13:
+		c := newCmap13(st)
+		cm, size = c, len(c)
+	default:
+		return 0, nil, nil, errors.New("format outside of the hook")
+	}
+	for _, r := range runes {
+		g, ok := cm.Lookup(r)
+		gids = append(gids, g)
+		oks = append(oks, ok)
+	}
+	return size, gids, oks, nil
+}
